@@ -232,6 +232,22 @@ class MapV:
         self.table[key] = v
 
 
+class AMapV:
+    """A hash map / hash set as an association list with (possibly symbolic) keys: key equality is structural, look-ups and
+    inserts split the path on which entry matches (the container itself is trusted; iteration order = insertion order, which
+    only matters for code whose result depends on the unspecified std order)."""
+
+    def __init__(self, entries=None, is_set=False):
+        self.entries = list(entries or [])      # [(key, value)]
+        self.is_set = is_set
+
+    def get(self, key):
+        return self.entries[key][1]
+
+    def set(self, key, v):
+        self.entries[key] = (self.entries[key][0], v)
+
+
 class SetV:
     """Abstraction of a hash set: only its size is tracked."""
 
@@ -781,6 +797,9 @@ class Engine:
                 # Rust integer division truncates toward zero; restricted to non-negative operands here
                 st.require(z3.And(x >= 0, y > 0), 'integer division on non-negative operands')
                 return IV(zs(x / y if op == 'Div' else x % y), a.ty)
+            if op in ('BitOr', 'BitAnd', 'BitXor') and a.concrete() is not None and b.concrete() is not None:
+                ca, cb = a.concrete(), b.concrete()
+                return IV({'BitOr': ca | cb, 'BitAnd': ca & cb, 'BitXor': ca ^ cb}[op], a.ty)
             raise Inconclusive(f'integer operation {op}')
         if isinstance(a, BV) and isinstance(b, BV):
             t = {'Eq': a.t == b.t, 'Ne': a.t != b.t, 'BitAnd': z3.And(a.t, b.t), 'BitOr': z3.Or(a.t, b.t), 'BitXor': z3.Xor(a.t, b.t)}.get(op)
